@@ -1,5 +1,455 @@
-/- Model for C01 (core Lean only, no Mathlib). -/
+/-
+Model for C01 — "operations never silently mix coordinate reference systems"
+(core Lean only, no Mathlib).
+
+What is modelled, function by function (odc-geo as found in /repo):
+
+* `CRS.__eq__` / `__ne__`                     crs.py:252-271            → `crsEq`, `tagEq`, `tagNe`
+* `wrap_shapely`                              geom.py:374-392           → walk `guardFirst false`
+* `Geometry.split`                            geom.py:808-814           → walk `guardFirst true`
+* `common_crs`, `multigeom`                   geom.py:1020-1036,1264    → walk `guardFirst true`
+* `unary_union`                               geom.py:1276-1290         → walk `guardFirst false`
+* `unary_intersection` (functools.reduce)     geom.py:1293-1297         → walk `reduce`
+* `bbox_union`, `bbox_intersection`           geom.py:1330-1383         → walk `foldCheckInside`
+* `pixel_translation` and its users           geobox.py:1108-1216, 712-738, 908-923
+      `overlap_roi`, `snap_to`, `bounding_box_in_pixel_domain`          → walk `guardFirst _`
+      `|`, `&`, `geobox_*_conservative` (generator drained by `bb, *bbs = bbs`
+      inside `try … except ValueError`)                                  → walk `pixelEach`
+* converting operations (`GeoBox.project/enclosing/__getitem__`,
+  `GeoboxTiles.tiles/range_from_bbox/grid_intersect`)                   → `convRun`
+* equality tests (`Geometry/BoundingBox/GeoBox/GeoboxTiles.__eq__`)     → `eqRun`
+
+The shapely / pixel-grid arithmetic is a parameter (`Delegate`): C01 is about the guard,
+not about the arithmetic.  The bounding-box folds are additionally instantiated with the
+real min/max arithmetic over `Rat` (`bboxUnion`, `bboxIntersection`).
+-/
 import OdcGeo.Model.IO
 namespace OdcGeo.C01
+
+/-! ### CRS records and `CRS.__eq__` -/
+
+/-- What `CRS.__eq__` can observe of a constructed `odc.geo.crs.CRS`. -/
+structure CrsRec where
+  /-- identity of the wrapped pyproj object (`self._crs is other._crs`) -/
+  objId : Nat
+  /-- `_epsg`; `0` when falsy (`EPSG_UNSET = 0`, or `None` after a failed lookup) -/
+  epsg : Nat
+  /-- `_str` (abstract: equal numbers ⇔ equal strings) -/
+  str : Nat
+  /-- class of the wrapped pyproj object under pyproj's own `==` -/
+  cls : Nat
+  deriving DecidableEq, Repr
+
+/-- `CRS.__eq__(self, other)` for `other` a `CRS` (crs.py:259-268):
+identity → EPSG codes (when both truthy) → string → pyproj equality. -/
+def crsEq (a b : CrsRec) : Bool :=
+  if a.objId = b.objId then true
+  else if a.epsg ≠ 0 ∧ b.epsg ≠ 0 then decide (a.epsg = b.epsg)
+  else if a.str = b.str then true
+  else decide (a.cls = b.cls)
+
+/-- The CRS attribute of a Geometry / BoundingBox / GeoBox: `None` or a `CRS`. -/
+abbrev Tag := Option CrsRec
+
+/-- Python `a == b` for `a b : Optional[CRS]`.  `crs == None` → `CRS(None)` raises inside
+`__eq__` → `False`; `None == crs` → `NotImplemented` → reflected `crs.__eq__(None)` → `False`. -/
+def tagEq : Tag → Tag → Bool
+  | none, none => true
+  | some a, some b => crsEq a b
+  | some _, none => false
+  | none, some _ => false
+
+/-- Python `a != b` (`CRS.__ne__` is `not ==`; `None != crs` goes through the reflected `__ne__`). -/
+def tagNe (a b : Tag) : Bool := !tagEq a b
+
+/-- Records as produced by `_make_crs` are related as follows (checked on the harness' CRS
+pool on every run; pyproj equality is assumed to be an equivalence, hence "class"). -/
+structure WF (a b : CrsRec) : Prop where
+  /-- the same pyproj object is the same CRS -/
+  obj : a.objId = b.objId → a.cls = b.cls
+  /-- the string determines the pyproj object up to pyproj equality -/
+  str : a.str = b.str → a.cls = b.cls
+  /-- two resolved EPSG codes agree exactly when pyproj says the CRSs are equal -/
+  epsg : a.epsg ≠ 0 → b.epsg ≠ 0 → (a.epsg = b.epsg ↔ a.cls = b.cls)
+
+/-! ### errors, operands, results -/
+
+inductive Err where
+  | crsMismatch      -- odc.geo.crs.CRSMismatchError (a ValueError)
+  | valueError       -- plain ValueError
+  | assertion
+  | typeError
+  | keyError
+  | other (code : Nat)   -- anything the delegate raises
+  deriving DecidableEq, Repr
+
+/-- `except ValueError: raise ValueError(...)` around the drained generator in
+`bbox_union`/`bbox_intersection`: every ValueError (CRSMismatchError included) leaves as a
+plain ValueError, everything else propagates. -/
+def Err.asValueError : Err → Err
+  | .crsMismatch => .valueError
+  | e => e
+
+/-- `CRSMismatchError` is a subclass of `ValueError`. -/
+def Err.isValueError : Err → Bool
+  | .crsMismatch => true
+  | .valueError => true
+  | _ => false
+
+/-- A CRS-tagged object: the tag and the raw shape (shapely geometry, 4 numbers, shape+affine). -/
+structure Obj (S : Type) where
+  crs : Tag
+  raw : S
+
+/-- Result of an operation. -/
+inductive Out (R : Type) where
+  /-- Python `None` (empty input of `unary_union`, `common_crs`) -/
+  | nothing
+  /-- `tag = none`: the result is not a CRS-tagged object (bool, ROI, XY, pixel-domain box);
+      `tag = some t`: a Geometry / BoundingBox / GeoBox carrying CRS `t`. -/
+  | val (tag : Option Tag) (r : R)
+
+/-- How an operation walks over its operands and where the CRS comparison sits. -/
+inductive Walk where
+  /-- every check happens before the single delegate call; `rev = false`: `first.crs != arg.crs`
+      (wrap_shapely, unary_union, pixel_translation(a,b)); `rev = true`: `arg.crs != first.crs`
+      (split, common_crs, overlap_roi/snap_to via `pixel_translation(other, self)`) -/
+  | guardFirst (rev : Bool)
+  /-- `functools.reduce(Geometry.intersection, geoms)`: guard, delegate, guard, delegate … -/
+  | reduce
+  /-- `bbox_union` / `bbox_intersection`: min/max are updated first, then the CRS is compared,
+      inside the loop -/
+  | foldCheckInside
+  /-- `bbox_*(bounding_box_in_pixel_domain(g, reference) for g in geoboxes)`: for every operand
+      (the reference included) compare CRS then do the pixel arithmetic; all of it inside the
+      `try … except ValueError` of the fold -/
+  | pixelEach
+  deriving DecidableEq, Repr
+
+inductive Arity where
+  | two | many
+  deriving DecidableEq, Repr
+
+/-- Behaviour of an n-ary operation on an empty operand list. -/
+inductive OnEmpty where
+  | err (e : Err) | nothing
+  deriving DecidableEq, Repr
+
+inductive ResTag where
+  | first | untagged
+  deriving DecidableEq, Repr
+
+structure OpSpec where
+  name : String
+  walk : Walk
+  arity : Arity
+  onEmpty : OnEmpty
+  resTag : ResTag
+  /-- what is raised on a CRS mismatch: `CRSMismatchError` (geometry, bounding box) or a plain
+      `ValueError("Geobox CRSs must match")` (GeoBox operations) -/
+  mismatchErr : Err
+  deriving Repr
+
+/-- The un-modelled arithmetic (shapely, pixel grid).  `call` is the whole operation on raw
+shapes; `init`/`step`/`stepT` are accumulator forms for the folds (`stepT` total: min/max);
+`pix` is `bounding_box_in_pixel_domain` without its CRS check, `fin` the rest of
+`geobox_*_conservative`. -/
+structure Delegate (S R : Type) where
+  call : String → List S → Except Err R
+  init : String → S → R
+  step : String → R → S → Except Err R
+  stepT : String → R → S → R
+  pix : String → S → S → Except Err R
+  fin : String → S → List R → Except Err R
+
+variable {S R : Type}
+
+/-- the `for arg in args[1:]: if first.crs != arg.crs: raise` loop -/
+def guardAll (rev : Bool) (e : Err) (t0 : Tag) : List (Obj S) → Except Err Unit
+  | [] => .ok ()
+  | x :: xs =>
+    if (if rev then tagNe x.crs t0 else tagNe t0 x.crs) then .error e
+    else guardAll rev e t0 xs
+
+/-- `functools.reduce(Geometry.intersection, …)` after the first element: the accumulator
+carries `first.crs` (wrap_shapely re-tags with `first.crs`). -/
+def reduceGo (D : Delegate S R) (name : String) (e : Err) (t0 : Tag) : R → List (Obj S) → Except Err R
+  | acc, [] => .ok acc
+  | acc, x :: xs =>
+    if tagNe t0 x.crs then .error e
+    else match D.step name acc x.raw with
+      | .error e' => .error e'
+      | .ok acc' => reduceGo D name e t0 acc' xs
+
+/-- loop body of `bbox_union`: `L = min(l, L) …` **then** `if crs != bb.crs: raise`. -/
+def foldGo (D : Delegate S R) (name : String) (e : Err) (t0 : Tag) : R → List (Obj S) → Except Err R
+  | acc, [] => .ok acc
+  | acc, x :: xs =>
+    let acc' := D.stepT name acc x.raw
+    if tagNe t0 x.crs then .error e else foldGo D name e t0 acc' xs
+
+/-- the generator `bounding_box_in_pixel_domain(g, reference) for g in geoboxes`:
+`pixel_translation(g, reference)` compares `g.crs != reference.crs` before any arithmetic. -/
+def pixGo (D : Delegate S R) (name : String) (e : Err) (ref : Obj S) : List (Obj S) → Except Err (List R)
+  | [] => .ok []
+  | x :: xs =>
+    if tagNe x.crs ref.crs then .error e
+    else match D.pix name x.raw ref.raw with
+      | .error e' => .error e'
+      | .ok b => match pixGo D name e ref xs with
+        | .error e' => .error e'
+        | .ok bs => .ok (b :: bs)
+
+def outTag (op : OpSpec) (t0 : Tag) : Option Tag :=
+  match op.resTag with
+  | .first => some t0
+  | .untagged => none
+
+/-- One combining operation on CRS-tagged operands: `guard operands >>= delegate`. -/
+def run (op : OpSpec) (D : Delegate S R) (xs : List (Obj S)) : Except Err (Out R) :=
+  match xs with
+  | [] =>
+    match op.arity with
+    | .two => .error .typeError
+    | .many => match op.onEmpty with
+      | .err e => .error e
+      | .nothing => .ok .nothing
+  | x0 :: rest =>
+    if op.arity = .two ∧ rest.length ≠ 1 then .error .typeError
+    else
+      match op.walk with
+      | .guardFirst rev =>
+        match guardAll rev op.mismatchErr x0.crs rest with
+        | .error e => .error e
+        | .ok () => match D.call op.name (x0.raw :: rest.map (·.raw)) with
+          | .error e => .error e
+          | .ok r => .ok (.val (outTag op x0.crs) r)
+      | .reduce =>
+        match reduceGo D op.name op.mismatchErr x0.crs (D.init op.name x0.raw) rest with
+        | .error e => .error e
+        | .ok r => .ok (.val (outTag op x0.crs) r)
+      | .foldCheckInside =>
+        match foldGo D op.name op.mismatchErr x0.crs (D.init op.name x0.raw) rest with
+        | .error e => .error e
+        | .ok r => .ok (.val (outTag op x0.crs) r)
+      | .pixelEach =>
+        match pixGo D op.name op.mismatchErr x0 (x0 :: rest) with
+        | .error e => .error e.asValueError
+        | .ok bs => match D.fin op.name x0.raw bs with
+          | .error e => .error e
+          | .ok r => .ok (.val (outTag op x0.crs) r)
+
+/-! ### the same computations without any CRS (what shapely / the pixel arithmetic returns) -/
+
+def rawReduce (D : Delegate S R) (name : String) : R → List S → Except Err R
+  | acc, [] => .ok acc
+  | acc, s :: ss => match D.step name acc s with
+    | .error e => .error e
+    | .ok acc' => rawReduce D name acc' ss
+
+def rawFold (D : Delegate S R) (name : String) : R → List S → R
+  | acc, [] => acc
+  | acc, s :: ss => rawFold D name (D.stepT name acc s) ss
+
+def rawPix (D : Delegate S R) (name : String) (ref : S) : List S → Except Err (List R)
+  | [] => .ok []
+  | s :: ss => match D.pix name s ref with
+    | .error e => .error e
+    | .ok b => match rawPix D name ref ss with
+      | .error e => .error e
+      | .ok bs => .ok (b :: bs)
+
+/-- The operation on raw shapes: `none` is Python `None`. -/
+def rawRun (op : OpSpec) (D : Delegate S R) (ss : List S) : Except Err (Option R) :=
+  match ss with
+  | [] =>
+    match op.arity with
+    | .two => .error .typeError
+    | .many => match op.onEmpty with
+      | .err e => .error e
+      | .nothing => .ok none
+  | s0 :: rest =>
+    if op.arity = .two ∧ rest.length ≠ 1 then .error .typeError
+    else
+      match op.walk with
+      | .guardFirst _ => (D.call op.name (s0 :: rest)).map some
+      | .reduce => (rawReduce D op.name (D.init op.name s0) rest).map some
+      | .foldCheckInside => .ok (some (rawFold D op.name (D.init op.name s0) rest))
+      | .pixelEach =>
+        match rawPix D op.name s0 (s0 :: rest) with
+        | .error e => .error e.asValueError
+        | .ok bs => (D.fin op.name s0 bs).map some
+
+/-- re-tag a raw result with the operands' CRS -/
+def retag (op : OpSpec) (t0 : Tag) : Option R → Out R
+  | none => .nothing
+  | some r => .val (outTag op t0) r
+
+/-! ### the table of combining operations (matched against introspection by the harness) -/
+
+def geomPred (n : String) : OpSpec :=
+  ⟨"Geometry." ++ n, .guardFirst false, .two, .nothing, .untagged, .crsMismatch⟩
+
+def geomSet (n : String) : OpSpec :=
+  ⟨"Geometry." ++ n, .guardFirst false, .two, .nothing, .first, .crsMismatch⟩
+
+def opTable : List OpSpec :=
+  (["contains", "covers", "crosses", "disjoint", "intersects", "touches", "within", "overlaps"].map geomPred)
+  ++ (["difference", "intersection", "symmetric_difference", "union", "__and__", "__or__", "__xor__",
+       "__sub__"].map geomSet)
+  ++ [ ⟨"Geometry.split", .guardFirst true, .two, .nothing, .first, .crsMismatch⟩,
+       ⟨"geom.common_crs", .guardFirst true, .many, .nothing, .first, .crsMismatch⟩,
+       ⟨"geom.multigeom", .guardFirst true, .many, .err .keyError, .first, .crsMismatch⟩,
+       ⟨"geom.unary_union", .guardFirst false, .many, .nothing, .first, .crsMismatch⟩,
+       ⟨"geom.unary_intersection", .reduce, .many, .err .typeError, .first, .crsMismatch⟩,
+       ⟨"geom.intersects", .guardFirst false, .two, .nothing, .untagged, .crsMismatch⟩,
+       ⟨"geom.bbox_union", .foldCheckInside, .many, .err .valueError, .first, .crsMismatch⟩,
+       ⟨"geom.bbox_intersection", .foldCheckInside, .many, .err .valueError, .first, .crsMismatch⟩,
+       ⟨"BoundingBox.__and__", .foldCheckInside, .two, .nothing, .first, .crsMismatch⟩,
+       ⟨"BoundingBox.__or__", .foldCheckInside, .two, .nothing, .first, .crsMismatch⟩,
+       ⟨"GeoBox.__or__", .pixelEach, .two, .nothing, .first, .valueError⟩,
+       ⟨"GeoBox.__and__", .pixelEach, .two, .nothing, .first, .valueError⟩,
+       ⟨"geobox.geobox_union_conservative", .pixelEach, .many, .err .valueError, .first, .valueError⟩,
+       ⟨"geobox.geobox_intersection_conservative", .pixelEach, .many, .err .valueError, .first, .valueError⟩,
+       ⟨"GeoBox.overlap_roi", .guardFirst true, .two, .nothing, .untagged, .valueError⟩,
+       ⟨"GeoBox.snap_to", .guardFirst true, .two, .nothing, .first, .valueError⟩,
+       ⟨"geobox.pixel_translation", .guardFirst false, .two, .nothing, .untagged, .valueError⟩,
+       ⟨"geobox.bounding_box_in_pixel_domain", .guardFirst false, .two, .nothing, .untagged, .valueError⟩ ]
+
+def findOp (name : String) : Option OpSpec := opTable.find? (·.name = name)
+
+/-! ### bounding boxes with the real arithmetic (geom.py:1330-1383) -/
+
+structure BBox where
+  l : Rat
+  b : Rat
+  r : Rat
+  t : Rat
+  deriving DecidableEq, Repr
+
+def rmin (a b : Rat) : Rat := if a ≤ b then a else b
+def rmax (a b : Rat) : Rat := if a ≤ b then b else a
+
+/-- `L = min(l, L); B = min(b, B); R = max(r, R); T = max(t, T)` -/
+def unionStep (acc x : BBox) : BBox := ⟨rmin x.l acc.l, rmin x.b acc.b, rmax x.r acc.r, rmax x.t acc.t⟩
+/-- `L = max(l, L); B = max(b, B); R = min(r, R); T = min(t, T)` -/
+def interStep (acc x : BBox) : BBox := ⟨rmax x.l acc.l, rmax x.b acc.b, rmin x.r acc.r, rmin x.t acc.t⟩
+
+def bboxDelegate (stp : BBox → BBox → BBox) : Delegate BBox BBox where
+  call := fun _ _ => .error (.other 0)
+  init := fun _ s => s
+  step := fun _ a s => .ok (stp a s)
+  stepT := fun _ a s => stp a s
+  pix := fun _ _ _ => .error (.other 0)
+  fin := fun _ _ _ => .error (.other 0)
+
+def bboxUnionSpec : OpSpec := ⟨"geom.bbox_union", .foldCheckInside, .many, .err .valueError, .first, .crsMismatch⟩
+def bboxInterSpec : OpSpec := ⟨"geom.bbox_intersection", .foldCheckInside, .many, .err .valueError, .first, .crsMismatch⟩
+
+/-- `bbox_union(bbs)` -/
+def bboxUnion (xs : List (Obj BBox)) : Except Err (Out BBox) := run bboxUnionSpec (bboxDelegate unionStep) xs
+/-- `bbox_intersection(bbs)` -/
+def bboxIntersection (xs : List (Obj BBox)) : Except Err (Out BBox) := run bboxInterSpec (bboxDelegate interStep) xs
+
+/-! ### converting operations: the operand is re-projected (or read as pixel coordinates), never mixed -/
+
+inductive ConvPath where
+  /-- CRSs compare equal: the operand is used as it is -/
+  | same
+  /-- both sides carry a CRS and they differ: the operand goes through `to_crs` first -/
+  | converted
+  /-- documented reading of an operand without CRS as pixel-plane coordinates -/
+  | pixelPlane
+  deriving DecidableEq, Repr
+
+structure ConvOut where
+  path : ConvPath
+  /-- `none`: result not CRS-tagged; `some t`: result tagged `t` -/
+  tag : Option Tag
+  deriving DecidableEq, Repr
+
+/-- `GeoBoxBase.project(g)` (geobox.py:377-395) -/
+def projectOp (self g : Tag) : Except Err ConvOut :=
+  match g with
+  | none => .ok ⟨.pixelPlane, some self⟩
+  | some _ =>
+    match self with
+    | none => .error .assertion
+    | some _ => if tagNe g self then .ok ⟨.converted, some none⟩ else .ok ⟨.same, some none⟩
+
+/-- `GeoBox.enclosing(region)` (geobox.py:686-706) -/
+def enclosingOp (self region : Tag) : Except Err ConvOut :=
+  match region with
+  | none => .error .valueError
+  | some _ => match projectOp self region with
+    | .error e => .error e
+    | .ok o => .ok ⟨o.path, some self⟩
+
+/-- `GeoBoxBase.compute_crop(roi)` / `GeoBox.__getitem__(roi)` for a Geometry / BoundingBox /
+GeoBox `roi` (geobox.py:305-339, 708-710); `tagged`: `__getitem__` returns a GeoBox. -/
+def cropOp (tagged : Bool) (self roi : Tag) : Except Err ConvOut :=
+  let t := if tagged then some self else none
+  match roi with
+  | none => .ok ⟨.pixelPlane, t⟩
+  | some _ => match projectOp self roi with
+    | .error e => .error e
+    | .ok o => .ok ⟨o.path, t⟩
+
+/-- `GeoboxTiles.range_from_bbox(bbox)` (geobox.py:1397-1420) -/
+def rangeFromBBoxOp (self bbox : Tag) : Except Err ConvOut :=
+  match bbox with
+  | none => .ok ⟨.pixelPlane, none⟩
+  | some _ => match projectOp self bbox with
+    | .error e => .error e
+    | .ok o => .ok ⟨o.path, none⟩
+
+/-- `GeoboxTiles.tiles(query)` (geobox.py:1426-1446); `isBBox`: the query is a BoundingBox. -/
+def tilesOp (isBBox : Bool) (self query : Tag) : Except Err ConvOut :=
+  if isBBox ∧ query = none then .ok ⟨.pixelPlane, none⟩
+  else
+    match self with
+    | some _ =>
+      if tagNe query self then
+        -- `poly.to_crs(target_crs)`: "Cannot project geometries without CRS"
+        match query with
+        | none => .error .valueError
+        | some _ => .ok ⟨.converted, none⟩
+      else .ok ⟨.same, none⟩
+    | none =>
+      -- no conversion; `range_from_bbox(poly.boundingbox)` projects a tagged box
+      match query with
+      | some _ => .error .assertion
+      | none => .ok ⟨.same, none⟩
+
+/-- `GeoboxTiles.grid_intersect(src)` (geobox.py:1479-1507) -/
+def gridIntersectOp (self src : Tag) : Except Err ConvOut :=
+  if tagEq src self then .ok ⟨.same, none⟩
+  else
+    -- `src.base.footprint(4326, 2) & self.base.footprint(4326, 2)`: `assert self.crs is not None`
+    match src, self with
+    | some _, some _ => .ok ⟨.converted, none⟩
+    | _, _ => .error .assertion
+
+def convTable : List String :=
+  ["GeoBox.project", "GeoBox.enclosing", "GeoBox.compute_crop", "GeoBox.__getitem__",
+   "GeoboxTiles.range_from_bbox", "GeoboxTiles.tiles", "GeoboxTiles.grid_intersect"]
+
+def convRun (name : String) (isBBox : Bool) (self other : Tag) : Option (Except Err ConvOut) :=
+  if name = "GeoBox.project" then some (projectOp self other)
+  else if name = "GeoBox.enclosing" then some (enclosingOp self other)
+  else if name = "GeoBox.compute_crop" then some (cropOp false self other)
+  else if name = "GeoBox.__getitem__" then some (cropOp true self other)
+  else if name = "GeoboxTiles.range_from_bbox" then some (rangeFromBBoxOp self other)
+  else if name = "GeoboxTiles.tiles" then some (tilesOp isBBox self other)
+  else if name = "GeoboxTiles.grid_intersect" then some (gridIntersectOp self other)
+  else none
+
+/-! ### equality tests: the CRS is part of the identity, a differing CRS answers `False` -/
+
+def eqTable : List String :=
+  ["Geometry.__eq__", "BoundingBox.__eq__", "GeoBox.__eq__", "GeoboxTiles.__eq__"]
+
+/-- `self.crs == other.crs and <raw equality>` (geom.py:79-82, 893-899; geobox.py:867-875, 1519-1524) -/
+def eqRun (a b : Tag) (rawEq : Bool) : Bool := tagEq a b && rawEq
 
 end OdcGeo.C01
